@@ -85,8 +85,32 @@ Definition o_ser := op_to_serial HP HP hid.
 Definition o_des := op_deserialize HP HP hid.
 Definition o_eqb := op_eqb HP N.eqb.
 Definition so_eqb := sop_eqb HP N.eqb.
+(* every type written into the operation's encoding must itself be encodable ([ty_ok]: a definition-backed
+   type whose arguments do not fit its definition makes `_to_serial` raise in `type_bound`) *)
+Definition row_ok := forallb ty_ok.
+Definition poly_ok (p : polytype) : bool := func_ok (pt_body p).
+Definition op_tys_ok (o : op') : bool :=
+  match o with
+  | OFuncDefn _ i _ os => row_ok i && row_ok os
+  | OFuncDecl _ sig => poly_ok sig
+  | ODataflowBlock i s oo _ => row_ok i && ty_ok s && row_ok oo
+  | OExitBlock os | OInput os | OOutput os => row_ok os
+  | OCall sig inst ta | OLoadFunc sig inst ta => poly_ok sig && func_ok inst && forallb targ_ok ta
+  | OCallIndirect sig => func_ok sig
+  | OLoadConst t | OAliasDefn _ t => ty_ok t
+  | ODFG i os _ | OCase i os | OCFG i os => row_ok i && row_ok os
+  | OConditional s oi os => ty_ok s && row_ok oi && row_ok os
+  | OTailLoop ji rest jo _ => row_ok ji && row_ok rest && row_ok jo
+  | OCustom _ sig _ _ args => func_ok sig && forallb targ_ok args
+  | OExtOp d sig args =>
+      match sig with Some f => func_ok f | None => match od_poly d with Some p => poly_ok p | None => true end end &&
+      forallb targ_ok args
+  | OTag _ s => ty_ok s
+  | _ => true
+  end.
 Definition o_ok (o : op') : bool :=
-  op_ok HP hp_ok o && match o with OCall s i a | OLoadFunc s i a => call_wf s i a | _ => true end.
+  op_ok HP hp_ok o && op_tys_ok o &&
+  match o with OCall s i a | OLoadFunc s i a => call_wf s i a | _ => true end.
 
 (* attribute-by-attribute comparison of a decoded value / operation with the original, extension types in
    opaque form (spec side: uses opaque_form_b of spec/CodecS.v, not the model's normal form) *)
@@ -148,11 +172,7 @@ Definition facts_canon (f : facts) : facts :=
 (* LoadFunc.num_out is, in the code as it stands, not an int (a dataclasses.Field left in a class that is not a
    dataclass; C06's business): the correspondence does not pin it either way, the monitor still demands that
    original and decoded operation agree on it *)
-Definition mask_num_out (o : op') (f : facts) : facts :=
-  match o with
-  | OLoadFunc _ _ _ => {| f_outer := f_outer f; f_inner := f_inner f; f_num_out := None; f_static := f_static f |}
-  | _ => f
-  end.
+Definition mask_num_out (o : op') (f : facts) : facts := f.   (* LoadFunc.num_out is 1 since fix 11b9f10: nothing masked *)
 
 Inductive vocase :=
 (* a value: input, type table of the function payloads, raised?, walk of _to_serial_root(), decoded object,
